@@ -259,6 +259,8 @@ def check_request_recorded(ctx, R, role, rule, instance):
             continue
         n += 1
         got, why = R.read(role, t['state'])
+        if got is None:
+            continue        # a reader the analysis cannot decide in this state is reported - once - by the rule that judges the reader in every reachable state (W4.verification-disabled-only-on-request / W7.getter-returns-the-setting)
         if got is not t['arg']:
             before = R.read(role, R.nodes[t['node']]['state'])[0]
             bad.append('%s after %s: %s%s%s' % (t['call'], R.where(t['node']), reading_text(role, got), ' (%s)' % why if got is None else '',
@@ -309,7 +311,7 @@ def check_verification(ctx, f, R):
                     continue
                 after, why = R.read(role, {F: got[F] for F in R.S})
                 before = R.read(role, src['state'])[0] if src else False
-                ok = after is False or (after is True and before is True)
+                ok = after is False or (after is True and before is True) or (after is None and (src is None or before is None))     # (a reader the analysis cannot decide: every initial state is a reachable state, reported - once - by (c))
                 ctx.add('W4.verification-disabled-only-on-request', '%s|initial value' % short, loc(B.root), ok,
                         'settings obtained from %s%s have certificate verification disabled although nobody asked: %s with them%s' % (
                             short, ' (applied to %s)' % R.where(src) if src else '', reading_text(role, after), ' (%s)' % why if after is None else ''))
@@ -324,7 +326,7 @@ def check_verification(ctx, f, R):
         bad = [(nd, got, why) for nd, got, why in by_req[asked] if got is not asked]
         ctx.add('W4.verification-disabled-only-on-request', '%s|disabling requested=%s' % (bname, asked), loc(f.body(builders[0])['body']), by_req[asked] and not bad,
                 'certificate verification is %s by %s where set_no_tls_verify(true) %s: %s' % (
-                    'kept' if asked else 'disabled', bname, 'was the last such call' if asked else 'was not called (or was followed by set_no_tls_verify(false))',
+                    'not decided to be %s' % ('disabled' if asked else 'kept') if bad and all(got is None for _n, got, _w in bad) else 'kept' if asked else 'disabled', bname, 'was the last such call' if asked else 'was not called (or was followed by set_no_tls_verify(false))',
                     '; '.join('with %s %s%s' % (R.where(nd), reading_text(role, got), ' (%s)' % why if got is None else '') for nd, got, why in bad[:3]) or 'no reachable settings state with this request'))
     ctx.floor('W4', bname + ': reachable settings states it was evaluated in', len(R.nodes), 4)
     # ---- (d) the handshake helper
@@ -394,7 +396,7 @@ def check_settings_copy(ctx, f, R):
                 s2 = {F: got[F] for F in R.S}
                 for r in roles:
                     a, b = R.read(r, src['state'])[0], R.read(r, s2)[0]
-                    if a != b or b is None:
+                    if a != b or (b is None and r != 'verify-off'):      # (a verification reader that is undecided for the original and for the clone alike is reported by W4 (c))
                         wrong.append('for the original %s, for the clone %s' % (reading_text(r, a), reading_text(r, b)))
                 if CF is not None and R.copied(got[CF]) != ('field', SELF, CF):
                     wrong.append('the caller\'s connector becomes %s' % absx.fmt(got[CF])[:30])
